@@ -8,6 +8,8 @@
       R <Rx|Ry|Rz|CU1|CRz|CRx> <n>   rotation of phase n/8 (arrays exact for even n; CU1 any n)
       K <k> b1 … bk            Ket(b1, …, bk)          B <k> b1 … bk   Bra(…)
       W                        SWAP                     S a b c d e     scalar (a+bζ+cζ²+dζ³)/2^e
+      Q <name> <nq> <N|0|1> <k> (a b c d e)*k    user-defined QuantumGate(name, nq, array) with `_dagger`
+                               None / False / True and its k = 4^nq array entries, row-major
   Matrices are answered as  `ok <rows> <cols> (a b c d e)*`  (row-major, five integers per entry).
 
       garr <gate>              the `.array` attribute (flag-blind)
@@ -42,6 +44,15 @@ def rotKind : P RotKind := do
   | "CU1" => pure .CU1 | "CRz" => pure .CRz | "CRx" => pure .CRx
   | _ => throw s!"bad rotation {t}"
 
+/-- Split a flat row-major list into rows of length `n` (fuel = list length). -/
+def chunkAux (n : Nat) : Nat → List Cyc8 → List (List Cyc8)
+  | 0, _ => []
+  | _, [] => []
+  | fuel + 1, xs => xs.take n :: chunkAux n fuel (xs.drop n)
+
+def chunk (n : Nat) (xs : List Cyc8) : List (List Cyc8) :=
+  if n = 0 then [] else chunkAux n xs.length xs
+
 partial def gate : P Gate := do
   let t ← tok
   match t with
@@ -57,6 +68,15 @@ partial def gate : P Gate := do
   | "B" => do pure (.bra (← many bool))
   | "W" => pure .swap
   | "S" => do pure (.scalar (← cyc))
+  | "Q" => do
+    let name ← tok
+    let nq ← nat
+    let dgt ← tok
+    let dg ← (match dgt with
+      | "N" => pure none | "0" => pure (some false) | "1" => pure (some true)
+      | _ => throw s!"bad dagger flag {dgt}" : P (Option Bool))
+    let ents ← many cyc
+    pure (.q ⟨name, nq, chunk (pow2 nq) ents, dg⟩)
   | _ => throw s!"bad gate head {t}"
 
 def layer : P (Nat × Gate × Nat) := do
